@@ -711,3 +711,13 @@ func (c *Conn) ReadAllFor(d time.Duration) ([]byte, error) {
 func (e Event) String() string {
 	return fmt.Sprintf("%9.3fs %-9s %s>%s #%d %dB %s", e.T.Seconds(), e.Kind, e.Src, e.Dst, e.Conn, len(e.Data), e.Note)
 }
+
+// Pipe returns the two ends of a fresh in-memory stream (a: "dialer", b:
+// "acceptor") with the given verdict applied, without any endpoint involved.
+func (n *Network) Pipe(v StreamVerdict) (*Conn, *Conn) {
+	n.mu.Lock()
+	n.connSeq++
+	id := n.connSeq
+	n.mu.Unlock()
+	return n.newPipe(id, "pipe-a:1", "pipe-b:1", v)
+}
